@@ -159,7 +159,7 @@ pub fn all() -> Vec<Prop> {
             id: "C11",
             run: props::hist::run_c11,
             replayers: props::hist::replayers_c11,
-            rule: "proptest histories: grid of 1-3 axes, each axis an arbitrary edge list (unsorted, duplicates, 0/1/2..8 edges; i32, i64, N64), 0..60 (quick) / 120 (thorough) add_observation operations with coordinates drawn from the edges themselves, their neighbours, below the first and beyond the last edge. Model: dictionary index-tuple -> count with bin lookup by linear scan. After EVERY step counts() is compared with the model at every index, its shape with grid.shape(), and the return value with the model (BinNotFound <=> no bin; a rejected insert changes nothing). Every second insert hands the point over as a reversed (stride -1) view. Then the same observations as a row-major matrix, a column-major matrix, a matrix view with a reversed column axis and in a permuted order through HistogramExt::histogram. Distinct by hash. Non-trivial: >= 2 axes with different bin counts, at least one accepted, one rejected and one on-an-edge observation.",
+            rule: "proptest histories: grid of 1-3 axes, each axis an arbitrary edge list (unsorted, duplicates, 0/1/2..8 edges; i32, i64, N64; handed over as a Vec or as an owned Array1 that was sliced / inverted in place), 0..60 (quick) / 120 (thorough) add_observation operations with coordinates drawn from the edges themselves, their neighbours, below the first and beyond the last edge. Model: dictionary index-tuple -> count with bin lookup by linear scan. After EVERY step counts() is compared with the model at every index, its shape with grid.shape(), and the return value with the model (BinNotFound <=> no bin; a rejected insert changes nothing). Every second insert hands the point over as a reversed (stride -1) view. Then the same observations as a row-major matrix, a column-major matrix, a matrix view with a reversed column axis and in a permuted order through HistogramExt::histogram. Distinct by hash. Non-trivial: >= 2 axes with different bin counts, at least one accepted, one rejected and one on-an-edge observation.",
             assumptions: COMMON_ASSUMPTIONS,
             profiles_quick: BOTH,
             profiles_thorough: BOTH,
